@@ -194,3 +194,10 @@ def histogram(part, c):
 
 
 PARTS = [Part("replication", "c01", "vsc", gen, nontrivial=nontrivial, describe=describe)]
+
+# ---- composed model (Model/System.v = Eligibility x Vsc): theorems in Props/C01System.v, part "system" in harness/c01sys/part.py
+EXTRA_PROPS = ["C01System"]
+import importlib.util as _ilu, os as _os
+_spec = _ilu.spec_from_file_location("c01sys_part", _os.path.join(_os.path.dirname(_os.path.abspath(__file__)), "..", "..", "harness", "c01sys", "part.py"))
+_c01sys = _ilu.module_from_spec(_spec); _spec.loader.exec_module(_c01sys)
+PARTS.append(_c01sys.PART)
